@@ -1,26 +1,75 @@
-// Minimal libgomp replacement (GOMP_parallel + omp_get_*), pthread based, so that
-// ThreadSanitizer sees fork/join as pthread_create/pthread_join.
+// Minimal libgomp replacement (GOMP_parallel + omp_get_*), pthread based, so that ThreadSanitizer sees fork/join as
+// pthread_create/pthread_join (libgomp's futex barriers are invisible to TSan and produce false races).
+// gcc lowers every pragma of phonopy's c/*.c to exactly these four symbols.
+// Extras for schedule diversity: MINIGOMP_PERM_SEED permutes thread ids (which OS thread runs which static chunk, start order),
+// MINIGOMP_YIELD=n makes each worker yield up to n times before starting. Counters are exported for the evidence.
 #include <pthread.h>
-#include <stdlib.h>
-#include <stdio.h>
 #include <sched.h>
+#include <stdio.h>
+#include <stdlib.h>
+
 static __thread int tl_tid = 0;
 static __thread int tl_nth = 1;
-static int cfg_threads(void){ const char*s=getenv("OMP_NUM_THREADS"); int n = s?atoi(s):4; return n<1?1:n; }
-int omp_get_max_threads(void){ return cfg_threads(); }
-int omp_get_num_threads(void){ return tl_nth; }
-int omp_get_thread_num(void){ return tl_tid; }
-struct job { void (*fn)(void*); void *data; int tid, nth; };
-static void *runner(void *p){ struct job *j = p; tl_tid=j->tid; tl_nth=j->nth; if (getenv("MINIGOMP_YIELD")) sched_yield(); j->fn(j->data); tl_tid=0; tl_nth=1; return NULL; }
-static unsigned long long calls=0, regions_mt=0;
-void GOMP_parallel(void (*fn)(void*), void *data, unsigned num_threads, unsigned flags){
-  (void)flags; int n = num_threads? (int)num_threads : cfg_threads();
-  __atomic_add_fetch(&calls,1,__ATOMIC_RELAXED);
-  if (tl_nth>1 || n==1){ int st=tl_tid, sn=tl_nth; tl_tid=0; tl_nth=1; fn(data); tl_tid=st; tl_nth=sn; return; }
-  __atomic_add_fetch(&regions_mt,1,__ATOMIC_RELAXED);
-  pthread_t th[256]; struct job jb[256]; if(n>256)n=256;
-  for(int i=1;i<n;i++){ jb[i]=(struct job){fn,data,i,n}; pthread_create(&th[i],NULL,runner,&jb[i]); }
-  int st=tl_tid, sn=tl_nth; tl_tid=0; tl_nth=n; fn(data); tl_tid=st; tl_nth=sn;
-  for(int i=1;i<n;i++) pthread_join(th[i],NULL);
+static unsigned long long calls = 0, regions_mt = 0, max_threads_seen = 0;
+static unsigned long long rng_state = 88172645463325252ULL;
+
+static int cfg_threads(void) {
+    const char *s = getenv("OMP_NUM_THREADS");
+    int n = s ? atoi(s) : 4;
+    return n < 1 ? 1 : n;
 }
-unsigned long long minigomp_calls(void){return calls;} unsigned long long minigomp_regions(void){return regions_mt;}
+static unsigned long long next_rand(void) {
+    unsigned long long x = __atomic_load_n(&rng_state, __ATOMIC_RELAXED);
+    x ^= x << 13; x ^= x >> 7; x ^= x << 17;
+    __atomic_store_n(&rng_state, x, __ATOMIC_RELAXED);
+    return x;
+}
+int omp_get_max_threads(void) { return cfg_threads(); }
+int omp_get_num_threads(void) { return tl_nth; }
+int omp_get_thread_num(void) { return tl_tid; }
+void omp_set_num_threads(int n) { char b[32]; snprintf(b, sizeof b, "%d", n < 1 ? 1 : n); setenv("OMP_NUM_THREADS", b, 1); }
+
+struct job { void (*fn)(void *); void *data; int tid, nth, yields; };
+
+static void *runner(void *p) {
+    struct job *j = p;
+    tl_tid = j->tid; tl_nth = j->nth;
+    for (int i = 0; i < j->yields; i++) sched_yield();
+    j->fn(j->data);
+    tl_tid = 0; tl_nth = 1;
+    return NULL;
+}
+
+void GOMP_parallel(void (*fn)(void *), void *data, unsigned num_threads, unsigned flags) {
+    (void)flags;
+    int n = num_threads ? (int)num_threads : cfg_threads();
+    __atomic_add_fetch(&calls, 1, __ATOMIC_RELAXED);
+    if (tl_nth > 1 || n == 1) {  // nested or single: run inline
+        int st = tl_tid, sn = tl_nth; tl_tid = 0; tl_nth = 1; fn(data); tl_tid = st; tl_nth = sn; return;
+    }
+    __atomic_add_fetch(&regions_mt, 1, __ATOMIC_RELAXED);
+    if (n > 256) n = 256;
+    if ((unsigned long long)n > max_threads_seen) max_threads_seen = n;
+    pthread_t th[256]; struct job jb[256]; int perm[256];
+    for (int i = 0; i < n; i++) perm[i] = i;
+    const char *ps = getenv("MINIGOMP_PERM_SEED");
+    if (ps) {
+        static int seeded = 0;
+        if (!seeded) { rng_state ^= (unsigned long long)atoll(ps) * 2654435761ULL + 1; seeded = 1; }
+        for (int i = n - 1; i > 0; i--) { int k = (int)(next_rand() % (unsigned)(i + 1)); int t = perm[i]; perm[i] = perm[k]; perm[k] = t; }
+    }
+    const char *ys = getenv("MINIGOMP_YIELD");
+    int ymax = ys ? atoi(ys) : 0;
+    for (int i = 1; i < n; i++) {
+        jb[i] = (struct job){fn, data, perm[i], n, ymax > 0 ? (int)(next_rand() % (unsigned)(ymax + 1)) : 0};
+        pthread_create(&th[i], NULL, runner, &jb[i]);
+    }
+    int st = tl_tid, sn = tl_nth; tl_tid = perm[0]; tl_nth = n;
+    if (ymax > 0) { int k = (int)(next_rand() % (unsigned)(ymax + 1)); for (int i = 0; i < k; i++) sched_yield(); }
+    fn(data);
+    tl_tid = st; tl_nth = sn;
+    for (int i = 1; i < n; i++) pthread_join(th[i], NULL);
+}
+unsigned long long minigomp_calls(void) { return calls; }
+unsigned long long minigomp_regions(void) { return regions_mt; }
+unsigned long long minigomp_max_threads(void) { return max_threads_seen; }
